@@ -508,6 +508,15 @@ theorem stop_port_oracle_holds_of_model (progs : List (List StopPorts.Op)) (sche
     (obsOf (StopPorts.run (StopPorts.init progs) sched).s final).violations = [] :=
   violations_nil (inv_reach progs sched) final hf
 
+/-- The epoch-free part of that oracle (`Obs.freeViolations`: at most one accepted request per port,
+the exit reason is an accepted request or the marker, an accepted request ends the actor) — what the
+free-running stress cases (real threads, no schedule points, multi-threaded runtime, where requests
+DO land while `post_stop` runs or after the loop chose its exit) are judged by. -/
+theorem stop_port_free_oracle_holds_of_model (progs : List (List StopPorts.Op)) (sched : List StopPorts.Tid)
+    (final : Bool) (hf : final = true → blocked (StopPorts.run (StopPorts.init progs) sched).s = true) :
+    (obsOf (StopPorts.run (StopPorts.init progs) sched).s final).freeViolations = [] :=
+  freeViolations_nil (inv_reach progs sched) final hf
+
 /-- E-SRC: the arm order the model's `pick` and `poll` follow is the one in the source. -/
 theorem src_port_priority :
     Extracted.selectArmVariants = [StopPorts.pickOrder, StopPorts.pickOrder] ∧
@@ -544,6 +553,7 @@ end C07
 #print axioms C07.exit_reason_is_the_priority_winner
 #print axioms C07.accepted_stop_wins_or_is_preempted
 #print axioms C07.stop_port_oracle_holds_of_model
+#print axioms C07.stop_port_free_oracle_holds_of_model
 #print axioms C07.src_port_priority
 #print axioms C07.send_after_close_rejected
 #print axioms C07.send_started_after_close_is_rejected
